@@ -144,7 +144,8 @@ theorem mappingRequest_outcome {K : Consts} {cfg : Cfg} {users : List Str} {P : 
     {cands : List Str} (hc : candsOk users cfg cands = true)
     (hem : pol.fmt = some K.email → ∀ c ∈ cands, P.get (c ++ 64 :: cfg.domain) = none)
     {n : NameId} {Q : DB} (h : mappingRequest K cfg P n0 pol cands = .ok (n, Q)) :
-    ∃ id, id ∈ users ∧ P.get t0 = some id ∧ Issued K users P id n Q := by
+    ∃ id, id ∈ users ∧ P.get t0 = some id ∧ Issued K users P id n Q ∧
+      normF n.spq = normF pol.spq ∧ normF n.fmt = normF pol.fmt := by
   unfold mappingRequest at h
   have hfl : findLocalId P n0 = P.get t0 := by simp [findLocalId, ht]
   rw [hfl] at h
@@ -169,17 +170,28 @@ theorem mappingRequest_outcome {K : Consts} {cfg : Cfg} {users : List Str} {P : 
         | some nid =>
           simp only [Except.ok.injEq, Prod.mk.injEq] at h
           obtain ⟨rfl, rfl⟩ := h
-          exact ⟨_, hid, rfl, .existing rfl (by rw [held_eq, hup]; exact hmem _ rfl)⟩
+          obtain ⟨hm1, hm2, hm3⟩ := hmem _ rfl
+          exact ⟨_, hid, rfl, .existing rfl (by rw [held_eq, hup]; exact hm1), by rw [hm3], by rw [hm2]⟩
         | none =>
           simp only at h
           by_cases hac : pol.allowCreate = some [102, 97, 108, 115, 101]
           · simp [hac] at h
           · simp only [hac, if_false] at h
-            refine ⟨_, hid, rfl, constructNameid_issued inv hid hc ?_ h⟩
-            intro fmt hcf he
-            apply hem
-            simp only [constructFmt, hpf, if_true] at hcf
-            rw [hcf, he]
+            have hem' : ∀ fmt, constructFmt none (some pol) = some fmt → fmt = K.email →
+                ∀ c ∈ cands, P.get (c ++ 64 :: cfg.domain) = none := by
+              intro fmt hcf he
+              apply hem
+              simp only [constructFmt, hpf, if_true] at hcf
+              rw [hcf, he]
+            obtain ⟨hq1, hq2⟩ := constructNameid_quals inv hid hc hem' h
+            refine ⟨_, hid, rfl, constructNameid_issued inv hid hc hem' h, ?_, ?_⟩
+            · rw [hq2]
+              unfold constructSpq
+              by_cases hs : truthy pol.spq = true
+              · simp [hs]
+              · have hs' : truthy pol.spq = false := by simpa using hs
+                simp [hs', normF]
+            · rw [hq1]; simp [constructFmt, hpf]
 
 /-! ### the results of the look-ups -/
 
@@ -251,8 +263,6 @@ theorem isFresh_of {K : Consts} {users : List Str} {P : DB} (inv : Inv K users P
   unfold isFresh
   rw [inv.not_heldText h, DB.has_eq, h]; rfl
 
-theorem sameQual_self (n : NameId) : sameQual n n.spq n.nq = true := by simp [sameQual]
-
 theorem regText_created {K : Consts} (hK : ConstsOk K) {users : List Str} {P Q : DB} {u : Str} {n : NameId} {t : Str}
     (c : Created K users P u n Q t) (hf : n.fmt = some K.persistent)
     (hnone : regIn K (held P u) n.spq n.nq = none) : regText K Q u n.spq n.nq = some t := by
@@ -300,7 +310,7 @@ theorem step_spec {K : Consts} (hK : ConstsOk K) {cfg : Cfg} {users : List Str} 
         obtain ⟨t, h1, _, _⟩ := inv.owner u hu n hm
         have hown' := hown
         rw [h1] at hown'
-        simp [resOk, hown', hsq, regText, regTextIn, hreg, h1]
+        simp [resOk, hown', hsq, regText, regTextIn, hreg, h1, hpf]
       · refine issuedStep watch inv hu (.created t c) rfl ?_ (by simp [sdbOk])
         intro hown
         subst hs; subst hq
@@ -308,7 +318,7 @@ theorem step_spec {K : Consts} (hK : ConstsOk K) {cfg : Cfg} {users : List Str} 
         have h2 : regText K P.db u n.spq n.nq = none := by simp [regText, regTextIn, hnone]
         have hown' := hown
         rw [c.text] at hown'
-        simp [resOk, hown', sameQual_self, h1, h2, c.text, isFresh_of inv c.fresh]
+        simp [resOk, hown', sameQual_self, h1, h2, c.text, isFresh_of inv c.fresh, hf]
   | transient u spq nq cands =>
     simp only [opOk, Bool.and_eq_true] at hop
     have hu := mem_users hop.1
@@ -320,13 +330,14 @@ theorem step_spec {K : Consts} (hK : ConstsOk K) {cfg : Cfg} {users : List Str} 
     | ok r =>
       obtain ⟨n, Q⟩ := r
       simp only [liftNid]
+      obtain ⟨hq1, hq2⟩ := getNameid_quals inv hu hop.2 hem hres
       rcases getNameid_issued inv hu hop.2 hem hres with ⟨hf, _, _⟩ | ⟨_, _, _, _, _, t, c⟩
       · exact absurd hf.symm hK.2
       · refine issuedStep watch inv hu (.created t c) rfl ?_ (by simp [sdbOk])
         intro hown
         have hown' := hown
         rw [c.text] at hown'
-        simp [resOk, hown', c.text, isFresh_of inv c.fresh]
+        simp [resOk, hown', c.text, isFresh_of inv c.fresh, hq1, hq2]
   | getNameid u fmt spq nq cands =>
     simp only [opOk, Bool.and_eq_true] at hop
     have hu := mem_users hop.1
@@ -338,8 +349,9 @@ theorem step_spec {K : Consts} (hK : ConstsOk K) {cfg : Cfg} {users : List Str} 
     | ok r =>
       obtain ⟨n, Q⟩ := r
       simp only [liftNid]
+      obtain ⟨hq1, hq2⟩ := getNameid_quals inv hu hop.2 hem hres
       exact issuedStep watch inv hu (getNameid_issued' inv hu hop.2 hem hres) rfl
-        (fun hown => by simp [resOk, hown]) (by simp [sdbOk])
+        (fun hown => by simp [resOk, hown, hq1, hq2]) (by simp [sdbOk])
   | construct u lf spq pol nq cands =>
     simp only [opOk, Bool.and_eq_true] at hop
     have hu := mem_users hop.1
@@ -352,8 +364,9 @@ theorem step_spec {K : Consts} (hK : ConstsOk K) {cfg : Cfg} {users : List Str} 
     | ok r =>
       obtain ⟨n, Q⟩ := r
       simp only [liftNid]
+      obtain ⟨hq1, hq2⟩ := constructNameid_quals inv hu hop.2 hem hres
       exact issuedStep watch inv hu (constructNameid_issued inv hu hop.2 hem hres) rfl
-        (fun hown => by simp [resOk, hown]) (by simp [sdbOk])
+        (fun hown => by simp [resOk, hown, hq1, hq2]) (by simp [sdbOk])
   | findNameid u flt =>
     simp only [opOk] at hop
     have hu := mem_users hop
@@ -375,9 +388,9 @@ theorem step_spec {K : Consts} (hK : ConstsOk K) {cfg : Cfg} {users : List Str} 
     | ok r =>
       obtain ⟨n, Q⟩ := r
       simp only [liftNid]
-      obtain ⟨id, hid, hg, i⟩ := mappingRequest_outcome inv ht0 htu hop.1.2 hop.2 hem hres
+      obtain ⟨id, hid, hg, i, hq1, hq2⟩ := mappingRequest_outcome inv ht0 htu hop.1.2 hop.2 hem hres
       exact issuedStep watch inv hid i rfl
-        (fun hown => by simpa [resOk, ht0, hg] using hown) (by simp [sdbOk])
+        (fun hown => by simpa [resOk, ht0, hg, hq1, hq2] using hown) (by simp [sdbOk])
   | manage n m =>
     simp only [opOk] at hop
     obtain ⟨t, ht, hne, htu⟩ := textOk_unpack hop
